@@ -1,4 +1,4 @@
-import Wip.ModsRounds
+import Cutadapt.Proofs.ModsRounds
 /-! `match_and_trim` by action: general path, fast path, the intervals kept by retain/crop, the marking done by
     mask/lowercase. Core Lean only. -/
 namespace Cutadapt
